@@ -89,6 +89,7 @@ func gramCases(j run.Job, yield func(c GCase)) {
 				o.Alpha = "ab \n"
 				o.LeftTrims = j.Param("lefttrims", 0) == 1
 				o.RTrimSeqs = j.Param("rtrimseqs", 0) == 1
+				o.RTrimFresh = j.Param("rtrimfresh", 0) == 1
 			}
 			o.Ends = j.Param("ends", 0) == 1
 			if j.Param("nl", 0) == 1 && r.Intn(2) == 0 {
@@ -143,6 +144,22 @@ func gramCases(j run.Job, yield func(c GCase)) {
 				}
 				in := g.RandomInput(r, nt, maxLen, bias)
 				yield(GCase{G: g, In: in, NT: nt, Fam: "mutual-lr"})
+			}
+		}
+	case "hidden":
+		r := rand.New(rand.NewSource(j.Seed))
+		inputs := j.Param("inputs", 6)
+		maxLen := j.Param("maxlen", 9)
+		for gi := 0; gi < j.N; gi++ {
+			g := gram.HiddenLR(r)
+			for ii := 0; ii < inputs; ii++ {
+				nt := r.Intn(len(g.NTs))
+				bias := 85
+				if ii == inputs-1 {
+					bias = 0
+				}
+				in := g.RandomInput(r, nt, maxLen, bias)
+				yield(GCase{G: g, In: in, NT: nt, Fam: "hidden-lr"})
 			}
 		}
 	case "layered":
